@@ -91,6 +91,10 @@ BUILTIN = {
     "__int128": TInt(128, True), "unsigned __int128": TInt(128, False),
 }
 
+class VecL(list):
+    """explicit lanes of a vector value (element expressions, lane 0 first)"""
+    pass
+
 class TranslateError(Exception):
     pass
 
@@ -405,6 +409,8 @@ class Exec:
 
     def fresh(self, e, hint="v"):
         """bind expression e to a new let-name via a stage definition; returns var E"""
+        if isinstance(e, VecL):
+            return VecL([self.fresh(x, hint) for x in e])
         if e.op in ("var", "const"):
             return e
         self.counter += 1
@@ -426,6 +432,8 @@ class Exec:
             raise TranslateError("conv %r -> %r" % (v.ct, ct))
         sw, dw = self.W(src.w), self.W(ct.w)
         e = v.e
+        if isinstance(e, VecL):
+            return Val(ct, VecL([self.conv(Val(src, x), ct).e for x in e]))
         if dw < sw: e = mk("trunc", [e], dw)
         elif dw > sw: e = mk("sext" if src.signed else "zext", [e], dw)
         return Val(ct, e)
@@ -435,6 +443,13 @@ class Exec:
         k = n["kind"]
         if k == "ParenExpr":
             return self.lvalue(n["inner"][0], env)
+        if k == "ArraySubscriptExpr":
+            b0 = n["inner"][0]
+            while b0.get("kind") in ("ParenExpr", "ImplicitCastExpr") and b0.get("castKind") in (None, "NoOp", "LValueToRValue") and b0.get("inner"): b0 = b0["inner"][0]
+            if b0.get("kind") == "DeclRefExpr" and isinstance(env.get(b0["referencedDecl"]["name"]), Val) and isinstance(env[b0["referencedDecl"]["name"]].ct, TVec) and env[b0["referencedDecl"]["name"]].ptr is None:
+                iv = self.rvalue(n["inner"][1], env)
+                if not iv.e.is_const(): raise TranslateError("symbolic vector lane index")
+                return ("vlane", b0["referencedDecl"]["name"], iv.e.val)
         if k == "DeclRefExpr":
             nm = n["referencedDecl"]["name"]
             if nm in env:
@@ -490,12 +505,20 @@ class Exec:
             return ("mem", obj, off + fo, ft)
         if k == "UnaryOperator" and n["opcode"] == "*":
             pv = self.rvalue(n["inner"][0], env)
+            if pv.ptr is not None and pv.ptr[0] == "ref":
+                return ("ref", pv.ptr[1], pv.ptr[2])
             return ("mem", pv.ptr[0], pv.ptr[1], pv.ct.to)
         if k in ("ImplicitCastExpr", "CStyleCastExpr") and n.get("castKind") == "NoOp":
             return self.lvalue(n["inner"][0], env)
         raise TranslateError("unsupported lvalue kind " + k)
 
     def load(self, lv, env):
+        if lv[0] == "ref":
+            return lv[2][lv[1]]
+        if lv[0] == "vlane":
+            v = env[lv[1]]
+            if isinstance(v.e, VecL): return Val(v.ct.el, v.e[lv[2]])
+            return Val(v.ct.el, v.e)          # uniform (lane-generic) vector: every lane is the generic lane
         if lv[0] == "var":
             v = env[lv[1]]
             if v.e is not None and v.e.op == "undef":
@@ -519,6 +542,13 @@ class Exec:
         raise TranslateError("load " + lv[0])
 
     def store(self, lv, v, env):
+        if lv[0] == "ref":
+            self.store(("var", lv[1]), v, lv[2]); return
+        if lv[0] == "vlane":
+            old = env[lv[1]]
+            lanes = VecL(old.e) if isinstance(old.e, VecL) else VecL([old.e] * old.ct.n)
+            lanes[lv[2]] = self.fresh(v.e, "v")
+            env[lv[1]] = Val(old.ct, lanes); return
         if lv[0] == "var":
             old = env[lv[1]]
             if v.ptr is not None:
@@ -531,6 +561,11 @@ class Exec:
             n = ct.size()
             if obj.name in self.param_objs:
                 self.io.append(("write", obj.name, off, n))
+            if isinstance(v.e, VecL):
+                elsz = n // len(v.e)
+                for i_, x_ in enumerate(v.e):
+                    obj.write(off + i_ * elsz, elsz, self.fresh(x_, "m"))
+                return
             if isinstance(ct, TRec) and v.ptr is not None:
                 # struct/union copy
                 src = v.ptr[0].read(v.ptr[1], n, self.W)
@@ -613,6 +648,10 @@ class Exec:
             sub = n["inner"][0]
             ct = self.tu.ctype(n["type"])
             if ck == "LValueToRValue":
+                ss = sub
+                while ss.get("kind") == "ParenExpr": ss = ss["inner"][0]
+                if ss.get("kind") == "CompoundLiteralExpr":
+                    return self.rvalue(ss, env)
                 return self.load(self.lvalue(sub, env), env)
             if ck == "ArrayToPointerDecay":
                 if sub["kind"] == "DeclRefExpr" and sub["referencedDecl"]["name"] not in env and sub["referencedDecl"]["name"] in self.tu.globals:
@@ -678,6 +717,9 @@ class Exec:
                 return self.load(self.lvalue(n, env), env)
             v = self.rvalue(sub, env)
             ct = self.tu.ctype(n["type"])
+            if isinstance(v.e, VecL) and op in ("~", "-", "+", "__extension__"):
+                if op in ("+", "__extension__"): return v
+                return Val(ct, VecL([mk("not" if op == "~" else "neg", [x], x.w) for x in v.e]))
             if op == "~": return Val(ct, mk("not", [v.e], v.e.w))
             if op == "-": return Val(ct, mk("neg", [v.e], v.e.w))
             if op in ("+", "__extension__"): return v
@@ -748,8 +790,14 @@ class Exec:
             if not sts: raise TranslateError("empty statement expression")
             for st in sts[:-1]: self.stmt(st, env)
             return self.rvalue(sts[-1], env)
-        if k == "CompoundLiteralExpr" or k == "InitListExpr":
-            raise TranslateError("compound literal / init list (vector construction is not element-wise)")
+        if k == "CompoundLiteralExpr":
+            return self.rvalue(n["inner"][0], env)
+        if k == "InitListExpr":
+            ct = self.tu.ctype(n["type"])
+            if not isinstance(ct, TVec): raise TranslateError("init list of non-vector type")
+            els = [self.conv(self.rvalue(c, env), ct.el).e for c in n.get("inner", [])]
+            while len(els) < ct.n: els.append(const(0, self.W(ct.el.w)))
+            return Val(ct, VecL(els))
         raise TranslateError("unsupported expression kind " + k)
 
     # reference-aware lvalue helpers (for `*u = ...` where u = &local)
@@ -776,6 +824,17 @@ class Exec:
         return v.e.val != 0
 
     def binop(self, op, a, b, ct):
+        if isinstance(a.e, VecL) or isinstance(b.e, VecL):
+            n_ = len(a.e) if isinstance(a.e, VecL) else len(b.e)
+            ela = a.ct.el if isinstance(a.ct, TVec) else a.ct
+            elb = b.ct.el if isinstance(b.ct, TVec) else b.ct
+            elc = ct.el if isinstance(ct, TVec) else ct
+            res = []
+            for i_ in range(n_):
+                xa = Val(ela, a.e[i_] if isinstance(a.e, VecL) else a.e)
+                xb = Val(elb, b.e[i_] if isinstance(b.e, VecL) else b.e)
+                res.append(self.binop(op, xa, xb, elc).e)
+            return Val(ct, VecL(res))
         if a.ptr is not None or b.ptr is not None:
             if op in ("+", "-") and a.ptr is not None and b.ptr is None:
                 if not b.e.is_const(): raise TranslateError("symbolic pointer arithmetic")
@@ -1027,6 +1086,14 @@ class Exec:
 
 def lean_ty(w): return "BitVec %d" % w
 
+def pack_lanes(lanes):
+    """one bit vector from explicit lanes, lane 0 in the low bits"""
+    w = lanes[0].w; W_ = w * len(lanes); acc = None
+    for i_, x_ in enumerate(lanes):
+        t = mk("shl", [mk("zext", [x_], W_)], W_, w * i_)
+        acc = t if acc is None else mk("or", [acc, t], W_)
+    return acc
+
 def has_body(f):
     return f is not None and any(c.get("kind") == "CompoundStmt" for c in f.get("inner", []))
 
@@ -1075,7 +1142,11 @@ def havoc(ex, env):
         elif isinstance(slot, Val) and slot.ptr is None:
             if slot.e is not None and isinstance(slot.ct, (TInt, TVec)):
                 el = slot.ct.el if isinstance(slot.ct, TVec) else slot.ct
-                env[nm] = Val(slot.ct, var(nm, ex.W(el.w)))
+                if isinstance(slot.ct, TVec) and getattr(ex, "explicit_lanes", False):
+                    full = var(nm, el.w * slot.ct.n)
+                    env[nm] = Val(slot.ct, VecL([mk("extract", [full], el.w, el.w * i_) for i_ in range(slot.ct.n)]))
+                else:
+                    env[nm] = Val(slot.ct, var(nm, ex.W(el.w)))
     for nm, slot in list(env.items()):
         if isinstance(slot, Val) and slot.ptr is not None:
             tgt = slot.ptr[0]
@@ -1220,6 +1291,7 @@ def translate(tu, ent, registry, sigs, lane=None, probe=False):
     ex.registry, ex.sigs = registry, sigs
     ex.assigned = assigned_names(f, set())
     ex.windows = ent.get("windows", {})
+    ex.explicit_lanes = ent.get("veclanes") == "explicit"
     params = [c for c in f.get("inner", []) if c.get("kind") == "ParmVarDecl"]
     args, sig, objs = [], [], []
     pspec = ent.get("params", {})
@@ -1234,6 +1306,11 @@ def translate(tu, ent, registry, sigs, lane=None, probe=False):
             else: raise TranslateError("pointer parameter %s of %s needs a size in the manifest" % (nm, fname))
             if isinstance(ct.to, TVec) and spec.get("lanewise"):
                 w = ex.W(ct.to.el.w)
+                if "const" in spec:
+                    # an argument of no interest for this leaf: fixed, and its result is not an output
+                    cell = {"__v": Val(ct.to, const(spec["const"], w))}
+                    args.append(Val(ct, None, ("ref", "__v", cell)))
+                    continue
                 cell = {"__v": Val(ct.to, var(nm, w))}
                 args.append(Val(ct, None, ("ref", "__v", cell)))
                 sig.append((nm, w)); objs.append(("ref", nm, cell, w))
@@ -1347,7 +1424,7 @@ def translate(tu, ent, registry, sigs, lane=None, probe=False):
         for nm, slot in env.items():
             if isinstance(slot, Obj):
                 if slot.written: avail[slot.name] = ("obj", slot)
-            elif isinstance(slot, Val) and slot.ptr is None and slot.e is not None and slot.e.op != "undef":
+            elif isinstance(slot, Val) and slot.ptr is None and slot.e is not None and (isinstance(slot.e, VecL) or slot.e.op != "undef"):
                 if before.get(nm) is not slot.e: avail[nm] = ("val", slot)
         for nm, o in ex.param_objs.items():
             if o.written: avail[nm] = ("obj", o)
@@ -1368,6 +1445,7 @@ def translate(tu, ent, registry, sigs, lane=None, probe=False):
                 raise TranslateError("piece output %s is not assigned in %s %r (assigned: %s)" % (nm, fname, piece, sorted(avail)))
             k2, slot = avail[nm]
             if k2 == "obj": outs.append(("obj", nm, ex.atom(slot.image(), "o")))
+            elif isinstance(slot.e, VecL): outs.append(("val", nm, ex.atom(pack_lanes(slot.e), "o")))
             else: outs.append(("val", nm, slot.e))
     if not outs: raise TranslateError("function %s has no outputs" % fname)
     # signature = free variables of everything emitted, in a canonical order
